@@ -13,7 +13,8 @@ mod verif_nx_cursor {
     use crate::formatter::TokenMarker;
     use crate::traits::Lexer;
 
-    const PIECES: [&str; 12] = ["a", "bc", ";", ":=", "{x}", "{\n}", "'''\nq\n'''", "//c\n", "'s'", "\u{e9}", "(", "1"];
+    // (multi-line tokens with LF, CRLF and lone-CR breaks inside: a cursor in an unchanged token keeps its offset whatever the break is)
+    const PIECES: [&str; 14] = ["a", "bc", ";", ":=", "{x}", "{\n}", "'''\nq\n'''", "//c\n", "'s'", "\u{e9}", "(", "1", "{\r\nx\r\n y}", "{\rx\n}"];
     const CANON_WS: [&str; 6] = ["", " ", "  ", "\n", "\n\n", "\n "];
     const ANY_WS: [&str; 9] = ["", " ", "  ", "\n", "\n\n", "\n ", "\t", " \n\t", "\r\n"];
 
